@@ -219,6 +219,7 @@ def run_harness(mod, spec):
 
     _patch_z3()
     _reset_stats()
+    del rt.SAMPLES[:]
     t0 = time.time()
     twin = bool(spec.get("twin"))
     out = {"id": spec["id"], "twin": twin, "params": spec.get("params")}
@@ -263,6 +264,10 @@ def run_harness(mod, spec):
             verdict = "pre_unsat"
         else:
             verdict = "inconclusive"
+        nondet = verdict == "error" and "NotDeterministic" in (out.get("cx_message") or "")
+        if nondet:
+            # the code under analysis behaved differently on identical decisions: it keeps state between calls
+            verdict = "inconclusive"
         if verdict == "inconclusive" and not twin:
             # Safety net, bug hunting only: the symbolic run met an operation the runtime cannot model, or ran out of its
             # time budget (typically because the code under analysis changed).  Probe the same harness with concrete values that satisfy the precondition;
@@ -285,7 +290,7 @@ def run_harness(mod, spec):
     out.update(
         paths=STATS["paths"], reached=STATS["reached"], unsupported=STATS["unsupported"][:5],
         fail=STATS["fail"], z3_queries=STATS["z3_queries"], z3_seconds=round(STATS["z3_seconds"], 3),
-        z3_unknown=STATS["z3_unknown"], sample_paths=STATS["sample_paths"], wall=round(time.time() - t0, 2),
+        z3_unknown=STATS["z3_unknown"], sample_paths=(list(rt.SAMPLES[:3]) or STATS["sample_paths"]), wall=round(time.time() - t0, 2),
     )
     return out
 
